@@ -281,7 +281,10 @@ func (b *ByteSlice) GetSlice(slice Slice) (Object, *Error) {
 	if err != nil {
 		return nil, NewError(err)
 	}
-	return NewByteSlice(b.value[start:stop]), nil
+	// Copy so that the result is independent of this byte_slice (like list slices)
+	result := make([]byte, stop-start)
+	copy(result, b.value[start:stop])
+	return NewByteSlice(result), nil
 }
 
 func (b *ByteSlice) SetItem(key, value Object) *Error {
